@@ -120,8 +120,10 @@ def get_facts(repo="/repo", profile="dev", crate="neurons", quiet=False, slot=""
     f["_key"] = key
     f["_profile"] = profile
     if normalise:
-        from . import names, inline
+        from . import names, inline, desugar
+        desugar.run(f)
         inline.inline_new_helpers(f)
+        desugar.run(f)      # inlined helper bodies may contain the same surface forms
         names.normalise(f)
     return f
 
